@@ -91,6 +91,9 @@ def second_graph(c, mol, p):
             t = c.choice("kt", mol.n - 1)
             numbering[t], numbering[t + 1] = numbering[t + 1], numbering[t]
         return graph_of(mol.listing(numbering=numbering)), ["keys", numbering]
+    if mode == "recanon-scrambled":
+        # canonicalize, renumber the result (labels != listing order), use that as the second description
+        return scramble(c, canon(graph_of(mol.listing()))), ["recanon-scrambled"]
     if mode == "recanon":
         # the canonical graph itself is a description of the molecule (its listing order differs from its numbering)
         return canon(graph_of(mol.listing())), ["recanon"]
@@ -308,7 +311,9 @@ def snapshot(g):
     return ([(k, dict(d)) for k, d in g.nodes(data=True)], [(u, v, dict(d)) for u, v, d in g.edges(data=True)])
 
 
-def same_snapshot(s1, s2, ignore=()):
+def same_snapshot(s1, s2, ignore=(), allow_extra=False):
+    """allow_extra: keys that appear only in the second snapshot are tolerated (scratch/bookkeeping a
+    refactoring may add); every key of the first snapshot must still be there with an equal value."""
     (n1, e1), (n2, e2) = s1, s2
     if [k for k, _ in n1] != [k for k, _ in n2]:
         return False
@@ -318,7 +323,10 @@ def same_snapshot(s1, s2, ignore=()):
     for (_, d1), (_, d2) in list(zip(n1, n2)) + [(("", a[2]), ("", b[2])) for a, b in zip(e1, e2)]:
         k1 = [k for k in d1 if k not in ignore]
         k2 = [k for k in d2 if k not in ignore]
-        if sorted(k1) != sorted(k2):
+        if allow_extra:
+            if any(k not in d2 for k in k1):
+                return False
+        elif sorted(k1) != sorted(k2):
             return False
         for k in k1:
             conds.append(attr_eq(d1[k], d2[k]))
@@ -354,6 +362,9 @@ def c12(**p):
         g = graph_of(mol.listing())
         if p.get("scramble"):
             g = scramble(c, g)
+        if p.get("offset_labels"):
+            import networkx as nx
+            g = nx.relabel_nodes(g, {k: 2 * k + 3 for k in g.nodes}, copy=True)      # labels that are not 0..n-1 (e.g. a subgraph)
         before = snapshot(g)
         g2 = canon(g)
         c.note("mol", mol.describe())
@@ -382,7 +393,7 @@ def c12(**p):
         snap2 = snapshot(g2)
         s1 = ser(g2)
         c.note("tucan", s1)
-        c.oblige("canonical-graph-unchanged-by-serialize", same_snapshot(snap2, snapshot(g2), ignore=SCRATCH))
+        c.oblige("canonical-graph-unchanged-by-serialize", same_snapshot(snap2, snapshot(g2), ignore=SCRATCH, allow_extra=True))
         s2 = ser(g2)
         s3 = ser(g2)
         c.oblige("serialize-repeatable", all_([str_eq(s1, s2), str_eq(s1, s3)]))
@@ -454,12 +465,22 @@ def c15(**p):
         c.note("mol", mol.describe())
         try:
             g = graph_of(mol.listing())
-            s = ser(canon(g))
+            gc = canon(g)
+            s = ser(gc)
         except Exception as e:
             c.oblige("canonicalize-and-serialize-return-normally", False, f"{type(e).__name__}: {e}")
             return
         c.note("tucan", s)
         c.oblige("canonicalize-and-serialize-return-normally", True)
+        # the same objects again, and objects derived from them (completion must not depend on the call history)
+        try:
+            ser(gc)
+            ser(canon(g))
+            ser(canon(gc))
+        except Exception as e:
+            c.oblige("repeated-calls-return-normally", False, f"{type(e).__name__}: {e}")
+            return
+        c.oblige("repeated-calls-return-normally", True)
     return body
 
 
@@ -476,15 +497,26 @@ class ShuffleStub:
         self.calls = []
         self.shuffles = 0
         self.max_shuffles = max_shuffles
+        self.stream = None          # which seed the generator state currently derives from (None: the caller's unknown state)
+        self.unseeded_draws = 0
 
     def seed(self, a=None, *rest):
         self.calls.append(("seed", a))
+        self.stream = ("seed", a)
+
+    def getstate(self):
+        return ("state", self.stream)
+
+    def setstate(self, st):
+        self.stream = st[1]
 
     def shuffle(self, x):
         self.shuffles += 1
         if self.shuffles > self.max_shuffles:
             raise Cut(f"more than {self.max_shuffles} shuffles in the retry loop")
         self.calls.append(("shuffle", len(x)))
+        if self.stream is None:
+            self.unseeded_draws += 1
         items = list(x)
         out = []
         k = self.shuffles
@@ -493,8 +525,23 @@ class ShuffleStub:
         out += items
         x[:] = out
 
+    def sample(self, population, k):
+        if k != len(population):
+            from symx.core import Unsupported
+            raise Unsupported("random.sample with k != len(population)")
+        x = list(population)
+        self.shuffle(x)
+        return x
+
+    def Random(self, seed=None):
+        """random.Random(seed): an instance sharing this stub's bookkeeping (a legitimate way to seed)."""
+        self.calls.append(("seed", seed))
+        self.stream = ("seed", seed)
+        return self
+
     def __getattr__(self, name):
-        raise AssertionError(f"permute_molecule used random.{name}")
+        from symx.core import Unsupported
+        raise Unsupported(f"permute_molecule uses random.{name}, which the shuffle stub does not model")
 
 
 def c16(**p):
@@ -520,6 +567,7 @@ def c16(**p):
         c.note("shuffles", stub.shuffles)
         c.note("perm", [gp.nodes[k].get("tag") for k in gp.nodes])
         c.oblige("seeded-before-first-shuffle", len(stub.calls) >= 2 and stub.calls[0] == ("seed", seed) and all(x[0] == "shuffle" for x in stub.calls[1:]))
+        c.oblige("every-shuffle-draws-from-the-seeded-stream", stub.unseeded_draws == 0, stub.unseeded_draws)
         c.oblige("argument-unchanged", same_snapshot(before, snapshot(g)))
         c.oblige("same-label-set", sorted(gp.nodes) == sorted(g.nodes))
         c.oblige("atoms-listed-in-label-order", list(gp.nodes) == sorted(gp.nodes))
